@@ -383,7 +383,7 @@ func (m *Model) Step(key byte, prefix string, expand func(string) string) (alt *
 				return nil
 			}
 			links := m.W.linksOf(cur)
-			if n < 1 || n > len(links) {
+			if n < 1 || n > len(links) || links[n-1].Att == "nourl" {
 				return nil
 			}
 			if key == '.' {
